@@ -138,11 +138,16 @@ static void item_fn(void *ctxt)
 		break;
 	}
 	case B_OWNSUSP: {
-		dispatch_suspend(g_q);
+		/* the item suspends its own queue; now and then nested deeper than the inline count holds, leaving exactly one
+		 * transfer unit (32) outstanding when it returns: the drainer that ran this item still holds the drain lock and
+		 * must see "suspended" although the inline count is 0 (seed C06-6).  The resumer thread gives the rest back. */
+		int deep = (vrt_rand() % 3) == 0, n = deep ? 64 + (int)(vrt_rand() % 8) : 1, left = deep ? 32 : 1;
+		for (int d = 0; d < n; d++) dispatch_suspend(g_q);
 		int w = atomic_fetch_add(&g_nwin, 1);
 		if (w < MAXW) { g_win[w].own = 1; g_win[w].s2 = 0; g_win[w].s1 = vrt_api("OwnSusp", g_obj, it->id, w, 0); }
+		for (int d = 0; d < n - left; d++) dispatch_resume(g_q);
 		atomic_store(&g_resume_win_idx, (uint64_t)w);
-		atomic_fetch_add(&g_pending_resume, 1);
+		atomic_fetch_add(&g_pending_resume, left);
 		break;
 	}
 	case B_NEST: {
